@@ -214,7 +214,9 @@ class Operation(ABC):
                 backed_grad = np.array(backed_grad, copy=False)
 
             if self.where is not True:
-                backed_grad = backed_grad * self.where
+                # (masked-out elements receive exactly 0, also where the derivative
+                # formula is not finite: `log(x, where=x > 0)` at x == 0)
+                backed_grad = np.where(self.where, backed_grad, 0)
 
             backed_grad = self.grad_post_process_fn(backed_grad, var.shape)
             assert backed_grad.shape == var.shape, (backed_grad.shape, var.shape)
